@@ -251,7 +251,9 @@ def interval_cases(ctx, env_ctl, live):
 
 # ----------------------------------------------------------------------------- frames
 def gen_prefixes(rng):
-    pool = ["/app", "/app/vendor", "/usr/lib", "/opt/x", "/srv", "/a", "lib", "/app/vendor/x"]
+    # folder prefixes, and prefixes that run past the last '/' (one file, or a family of names in a folder)
+    pool = ["/app", "/app/vendor", "/usr/lib", "/opt/x", "/srv", "/a", "lib", "/app/vendor/x", "/app/ma", "/srv/w", "/app/vendor/gen_",
+            "/opt/x/y.py"]
     return [rng.choice(pool) for _ in range(rng.choice([0, 1, 1, 2, 3]))]
 
 
@@ -261,7 +263,8 @@ def frame_cases(ctx, env_ctl, n):
     from deep.processor.frame_collector import FrameCollector
     rng = ctx.rng
     lits, cj = [], []
-    files = ["/app/main.py", "/app/vendor/lib.py", "/usr/lib/python3/x.py", "/opt/x/y.py", "/srv/w.py", "/a", "/ab/c.py",
+    files = ["/app/main.py", "/app/other.py", "/app/vendor/gen_pb2.py", "/app/vendor/lib.py", "/usr/lib/python3/x.py", "/opt/x/y.py", "/opt/x/z.py",
+             "/srv/w.py", "/srv/x.py", "/a", "/ab/c.py",
              "lib/m.py", sys.exec_prefix + "/lib/os.py", "/app/vendor/x/z.py", "<string>", ""]
 
     class Src:
@@ -305,6 +308,14 @@ def frame_cases(ctx, env_ctl, n):
             pool = ["/app", "/app/vendor", "/usr/lib", "/opt/x", "/srv", "/a", "lib", "/app/vendor/x"]
             f = rng.choice(pool + [root, "", "/other"]) + "".join(
                 rng.choice(pool + ["/main.py", "/pkg", "/x.py", root]) for _ in range(rng.choice([1, 2, 3])))
+        # the SAME service is asked about siblings of f first (the answer for f must not depend on earlier questions)
+        import posixpath
+        folder = posixpath.dirname(f)
+        for sib in rng.sample(["main.py", "other.py", "gen_a.py", "gen_pb2.py", "w.py", "x.py", "y.py", "lib.py"], rng.choice([0, 1, 2])):
+            try:
+                cfg.is_app_frame(folder + "/" + sib)
+            except Exception:
+                pass
         j = dict(include=jv(vals["IN_APP_INCLUDE"]), include_from=how_i, exclude=jv(vals["IN_APP_EXCLUDE"]),
                  exclude_from=how_e, app_root=root, file=f)
         ctx.case(j, nontrivial=bool(incl or excl), bucket="frame inc=%s exc=%s" % (how_i, how_e))
